@@ -85,13 +85,15 @@ PRE = ("From Coq Require Import List String Bool Arith.\nFrom AV.lib Require Imp
        "Open Scope string_scope.\nOpen Scope list_scope.\n")
 
 TRACK = ["C16_A", "C16_B", "C16_Z", "OMP_NUM_THREADS", "GFORTRAN_UNBUFFERED_ALL"]
-EXC_NAMES = ["ValueError", "RuntimeError", "OSError", "KeyError", "KeyboardInterrupt", "CalculationException"]
+EXC_NAMES = ["ValueError", "RuntimeError", "OSError", "KeyError", "KeyboardInterrupt", "CalculationException",
+             "SystemExit", "GeneratorExit"]
+BASE_EXC = (4, 6, 7)     # BaseException subclasses that are not Exception: `except Exception` does not see them
 EXE_MISSING_CODE = 99
 
 
 def exc_types():
     from autode.exceptions import CalculationException
-    return [ValueError, RuntimeError, OSError, KeyError, KeyboardInterrupt, CalculationException]
+    return [ValueError, RuntimeError, OSError, KeyError, KeyboardInterrupt, CalculationException, SystemExit, GeneratorExit]
 
 
 # ------------------------------------------------------------------------------------ Coq literals
@@ -724,6 +726,9 @@ def scripts(full):
           [("delenv", "C16_A"), ("raise", 3)], [("setcfg", "nested"), ("setcfg", "n_cores"), ("raise", 5)],
           [("setcfg", "inplace"), away, ("mkfile", "elsewhere.out"), ("raise", 4)],
           [("setcfg", "keywords"), ("setcfg", "addkey"), ("raise", 1)]]
+    for i in BASE_EXC:      # every wrapper must restore what it manages when a BaseException passes through
+        R += [[("setcfg", "nested"), ("raise", i)], [("setenv", "C16_A", "callee"), ("delenv", "C16_B"), ("raise", i)],
+              [("mkfile", "res.out"), away, ("raise", i)]]
     if full:
         R += [[("mkdir", "sub"), away, ("setenv", "C16_B", "b"), ("raise", 0)],
               [("mkfile", "a.xyz"), ("mkfile", "b.out"), ("raise", 2)]]
@@ -1194,7 +1199,8 @@ def run(ctx):
                     descr.append({"stream": "single-wrapper", "case": jsonable_case(c), "observed": r["txt"]})
         # 3b. nested stacks (depth 2-3, incl. recursion of one decorated function)
         nst = 40 if ctx.quick else 400
-        sub = [S[i] for i in (0, 1, 2, 3, 4, 6, 8, 10, 14, 16, 17, 20, 21) if i < len(S)]
+        sub = ([S[i] for i in (0, 1, 2, 3, 4, 6, 8)] + [[("raise", i)] for i in (0, 4, 5, 6, 7)]
+               + [x for x in S if len(x) >= 2 and x[-1][0] == "raise"])
         fixed = []      # depth 3 on ONE variable, every kind of prior value, return and raise (also as recursion)
         for val in (None, "7", "0", "", " "):
             for stack in ([("env", [("C16_A", "1")]), ("env", [("C16_A", "")]), ("env", [("C16_A", "3")])],
